@@ -402,3 +402,757 @@ def extract_let_block(fn_src, var):
                 break
         j += 1
     return fn_src[i:j + 1]
+
+
+# ==================================================================================================
+# Lane translator (EXTRACT kind "lanes"): per-lane x86 SIMD intrinsic DAGs -> `BitVec 8` functions
+# ==================================================================================================
+#
+# Accepted subset (anything else raises `Unsupported`; never guessed):
+#
+#   * vector values: parameters / `let` bindings named in the spec's "inputs" (their defining
+#     expression, typically a load or a cross-lane shift, is NOT translated; its source text is
+#     recorded so a change shows up in the generated file), `let [mut] x = <vec expr>;`,
+#     re-assignments `x = <vec expr>;`, `*x = <vec expr>;` at any nesting depth, taken in source
+#     order (the DAG must not depend on control flow: only the bindings an output needs are parsed)
+#   * vec expr: `_mm{,256}_set1_epi8(<byte expr>)`, `setzero_si128/256()`, `cmpeq_epi8`, `cmpgt_epi8`
+#     (signed), `or/and/xor/andnot_si128/256`, `add/sub_epi8`, `adds/subs_epu8`, `min/max_epu8`,
+#     `srli/slli_epi16(x, n)` ONLY directly under `and_si*` with a constant byte mask that removes
+#     every bit shifted in from the neighbouring byte, calls to helper fns of the same file whose
+#     body is again in this subset (inlined), `unsafe { e }`, parentheses
+#   * byte expr: integer / `b'x'` literals, `-lit`, `+`/`-` of constants, `as i8` / `as u8` casts,
+#     file-level `const NAME: i8|u8`, scalar `i8`/`u8` parameters (become extra `BitVec 8` arguments)
+#   * outputs: "return" (trailing expression), "return.<field>" (struct literal field),
+#     "return.<n>" (tuple component), "<var>" (last binding of that name) or "<var>#k" (k-th
+#     binding, 0-based); an optional ".then"/".else" suffix selects a branch of an `if c {a} else {b}`
+#     output expression explicitly.  `_mm*_movemask_epi8(e) [as T]*` marks a mask output whose lane
+#     is `e`.
+#   * cross-lane intrinsics (`alignr`, `permute*`, `shuffle*`, `sad_epu8`, `unpack*`, `pack*`,
+#     `slli/srli_si128`, `bslli/bsrli`, `blendv`, `insert/extract`, loads) anywhere in the slice of an
+#     output that is not a declared input -> Unsupported.
+
+LTOK = re.compile(r"""
+    (?P<ws>\s+|//[^\n]*|/\*.*?\*/)
+  | (?P<attr>\#!?\[[^\]]*\])
+  | (?P<bchar>b'(?:\\x[0-9a-fA-F]{2}|\\.|[^'\\])')
+  | (?P<str>b?"(?:\\.|[^"\\])*")
+  | (?P<num>0x[0-9a-fA-F_]+(?:[iu](?:8|16|32|64|size))?|0b[01_]+(?:[iu](?:8|16|32|64|size))?|[0-9][0-9_]*(?:[iu](?:8|16|32|64|size))?)
+  | (?P<id>[A-Za-z_][A-Za-z0-9_]*)
+  | (?P<op>::|->|=>|==|!=|<=|>=|&&|\|\||<<=|>>=|<<|>>|\.\.=|\.\.|[-+*/%^!&|=<>(){}\[\];:,.?@#$'~\\])
+""", re.X | re.S)
+
+CROSS_LANE = re.compile(
+    r"alignr|permute|shuffle|sad_epu8|unpack|packs|packus|_si128$|bslli|bsrli|blendv|insert|extract|"
+    r"loadu?_|lddqu|storeu?_|gather|broadcast|cvt|madd|mullo|mulhi|hadd|hsub|minpos|testz|testc|movemask_p")
+
+VEC_TYPES = ("__m128i", "__m256i", "__m512i")
+
+
+def ltokenize(src):
+    out, i = [], 0
+    while i < len(src):
+        m = LTOK.match(src, i)
+        if not m:
+            out.append(("op", src[i]))
+            i += 1
+            continue
+        i = m.end()
+        if m.lastgroup in ("ws", "attr"):
+            continue
+        out.append((m.lastgroup, m.group(m.lastgroup)))
+    return out
+
+
+def bchar_value(tok):
+    body = tok[2:-1]
+    if body.startswith("\\x"):
+        return int(body[2:], 16)
+    if body.startswith("\\"):
+        return {"n": 10, "r": 13, "t": 9, "0": 0, "\\": 92, "'": 39, '"': 34}[body[1]]
+    return ord(body)
+
+
+class LNode:
+    """A lane value: kind 'vec' (Lean BitVec 8 text), 'byte' (constant int or symbolic text),
+    'shift' (srli/slli awaiting its mask), 'mask' (movemask marker around a vec)."""
+    def __init__(self, kind, text=None, const=None, extra=None):
+        self.kind, self.text, self.const, self.extra = kind, text, const, extra
+
+
+def byte_lit(v):
+    return f"0x{v % 256:02X}#8"
+
+
+class LaneTranslator:
+    def __init__(self, file_text, fn_name, inputs, file_consts=None):
+        self.file_text = file_text
+        self.fn_name = fn_name
+        self.inputs = list(inputs)
+        self.file_consts = file_consts if file_consts is not None else self.scan_consts(file_text)
+
+    # ---- file-level byte constants: `const NAME: i8|u8 = <byte expr>;`
+    @staticmethod
+    def scan_consts(text):
+        consts = {}
+        for m in re.finditer(r"const\s+([A-Z][A-Z0-9_]*)\s*:\s*(i8|u8)\s*=\s*([^;]+);", text):
+            consts[m.group(1)] = m.group(3)
+        return consts
+
+    # ---- function header / body
+    @staticmethod
+    def extract_fn_any(text, name):
+        """Like `extract_fn`, also for generic fns (`fn name<const X: bool>(...)`)."""
+        m = re.search(r"\bfn\s+" + re.escape(name) + r"\s*(?:<[^>(]*>)?\s*\(", text)
+        if not m:
+            raise Unsupported(f"fn {name} not found")
+        i = text.index("{", m.end())
+        depth, j = 0, i
+        while True:
+            c = text[j]
+            if c == "{":
+                depth += 1
+            elif c == "}":
+                depth -= 1
+                if depth == 0:
+                    break
+            j += 1
+        return text[m.start():j + 1]
+
+    def load_fn(self, name):
+        src = self.extract_fn_any(self.file_text, name)
+        toks = ltokenize(src)
+        i = 0
+        while toks[i][1] != "fn":
+            i += 1
+        i += 2  # fn name
+        # generic params <...>
+        if toks[i][1] == "<":
+            depth = 0
+            while True:
+                if toks[i][1] == "<":
+                    depth += 1
+                elif toks[i][1] == ">":
+                    depth -= 1
+                    if depth == 0:
+                        i += 1
+                        break
+                i += 1
+        assert toks[i][1] == "("
+        i += 1
+        params = []  # (name, kind) kind in vec|byte|mutvec|other
+        depth = 1
+        cur = []
+        while depth > 0:
+            t = toks[i]
+            if t[1] in ("(", "<", "["):
+                depth += 1
+            elif t[1] in (")", ">", "]"):
+                depth -= 1
+                if depth == 0:
+                    if cur:
+                        params.append(cur)
+                    break
+            if t[1] == "," and depth == 1:
+                params.append(cur)
+                cur = []
+            else:
+                cur.append(t)
+            i += 1
+        i += 1
+        plist = []
+        for p in params:
+            p = [t for t in p if t[1] != "mut" or p.index(t) == 0]
+            names = [t[1] for t in p]
+            if ":" not in names:
+                continue
+            k = names.index(":")
+            pname = [n for n in names[:k] if n != "mut"][-1]
+            ty = names[k + 1:]
+            if ty and ty[-1] in VEC_TYPES:
+                kind = "mutvec" if "&" in ty else "vec"
+            elif ty == ["i8"] or ty == ["u8"]:
+                kind = "byte"
+            else:
+                kind = "other"
+            plist.append((pname, kind))
+        # body tokens: from first '{' after the header to its match
+        while toks[i][1] != "{":
+            i += 1
+        depth, j = 0, i
+        while True:
+            if toks[j][1] == "{":
+                depth += 1
+            elif toks[j][1] == "}":
+                depth -= 1
+                if depth == 0:
+                    break
+            j += 1
+        return plist, toks[i + 1:j]
+
+    # ---- statement scan: bindings in source order at any depth
+    @staticmethod
+    def scan_bindings(body):
+        """Return [(name, expr_tokens, brace_depth, is_let)] for `let [mut] name [: T] = e;`,
+        `name = e;`, `*name = e;` in source order."""
+        n = len(body)
+        i = 0
+        res = []
+        depth_at = []
+        d = 0
+        for _k, _t in body:
+            depth_at.append(d)
+            if _t == "{":
+                d += 1
+            elif _t == "}":
+                d -= 1
+                depth_at[-1] = d
+
+        def expr_until_semicolon(k):
+            depth, j = 0, k
+            while j < n:
+                t = body[j][1]
+                if t in ("(", "{", "["):
+                    depth += 1
+                elif t in (")", "}", "]"):
+                    if depth == 0:
+                        break
+                    depth -= 1
+                elif t == ";" and depth == 0:
+                    break
+                j += 1
+            return body[k:j], j
+
+        while i < n:
+            k, t = body[i]
+            if t == "let":
+                j = i + 1
+                if body[j][1] == "mut":
+                    j += 1
+                if body[j][0] == "id" and body[j + 1][1] in ("=", ":"):
+                    name = body[j][1]
+                    j += 1
+                    if body[j][1] == ":":
+                        while body[j][1] != "=":
+                            j += 1
+                    e, _ = expr_until_semicolon(j + 1)
+                    res.append((name, e, depth_at[i], True))
+                    i = j + 1        # continue scanning inside the expression as well (nested blocks)
+                    continue
+                i += 1
+                continue
+            prev = body[i - 1][1] if i > 0 else ";"
+            if k == "id" and prev in (";", "{", "}") and i + 1 < n and body[i + 1][1] == "=" :
+                e, _ = expr_until_semicolon(i + 2)
+                res.append((t, e, depth_at[i], False))
+                i += 2
+                continue
+            if t == "*" and prev in (";", "{", "}") and i + 2 < n and body[i + 1][0] == "id" and body[i + 2][1] == "=":
+                e, _ = expr_until_semicolon(i + 3)
+                res.append((body[i + 1][1], e, depth_at[i], False))
+                i += 3
+                continue
+            i += 1
+        return res
+
+    @staticmethod
+    def trailing_expr(body):
+        """Tokens of the trailing expression of a block body (after the last top-level `;`/`}`-ended
+        statement); unwraps a body that is a single `unsafe { ... }` block."""
+        while True:
+            if body and body[0][1] == "unsafe" and body[1][1] == "{":
+                # does the unsafe block span the whole body?
+                depth = 0
+                for j in range(1, len(body)):
+                    if body[j][1] == "{":
+                        depth += 1
+                    elif body[j][1] == "}":
+                        depth -= 1
+                        if depth == 0:
+                            break
+                if j == len(body) - 1:
+                    body = body[2:-1]
+                    continue
+            break
+        depth, last = 0, 0
+        j = 0
+        n = len(body)
+        while j < n:
+            t = body[j][1]
+            if t in ("(", "{", "["):
+                depth += 1
+            elif t in (")", "}", "]"):
+                depth -= 1
+                if depth == 0 and t == "}" and last < n and body[last][1] in ("if", "while", "for", "loop", "match", "unsafe"):
+                    # a block statement (`if c { .. }`, `while .. { .. }`) ends here unless the
+                    # expression continues (`else`, method call, cast) or it is the trailing value
+                    nxt = body[j + 1][1] if j + 1 < n else None
+                    if nxt is not None and nxt not in ("else", ".", "as", "?"):
+                        last = j + 1
+            elif t == ";" and depth == 0:
+                last = j + 1
+            j += 1
+        return body[last:], body[:last]
+
+    # ---- expression translation --------------------------------------------------------------
+    class P:
+        def __init__(self, toks):
+            self.t, self.i = toks, 0
+
+        def peek(self, k=0):
+            return self.t[self.i + k] if self.i + k < len(self.t) else ("eof", "")
+
+        def eat(self, val=None):
+            t = self.peek()
+            if val is not None and t[1] != val:
+                raise Unsupported(f"expected {val!r}, got {t[1]!r}")
+            self.i += 1
+            return t
+
+        def at(self, v):
+            return self.peek()[1] == v
+
+        def done(self):
+            return self.i >= len(self.t)
+
+    def translate(self, outputs):
+        """Return (args, lets-and-defs per output) as Lean text pieces."""
+        params, body = self.load_fn(self.fn_name)
+        self.scalar_params = [p for p, k in params if k == "byte"]
+        self.used_scalars = []
+        bindings = self.scan_bindings(body)
+        trailing, _ = self.trailing_expr(body)
+        # environment: name -> list of versions; version = ('input',) | ('expr', tokens, index)
+        self.versions = {}
+        order = []
+        for p, k in params:
+            if k in ("vec", "mutvec"):
+                self.versions.setdefault(p, []).append(("param", None, len(order)))
+                order.append(p)
+        let_depth = {}
+        for idx, (name, e, depth, is_let) in enumerate(bindings):
+            kind = "expr"
+            if is_let:
+                let_depth[name] = depth
+            elif name in let_depth and depth > let_depth[name]:
+                kind = "cond"       # re-assigned inside a nested block: value depends on control flow
+            self.versions.setdefault(name, []).append((kind, e, len(order) + idx))
+        self.input_src = {}
+        for name in self.inputs:
+            if name not in self.versions:
+                raise Unsupported(f"declared input {name} is neither a vector parameter nor a binding of {self.fn_name}")
+            for v in self.versions[name]:
+                if v[0] in ("expr", "cond"):
+                    self.input_src.setdefault(name, []).append(" ".join(t[1] for t in v[1]))
+        results = []
+        all_scalars = set()
+        for out in outputs:
+            self.lets, self.memo, self.names = [], {}, {}
+            self.used_inputs, self.used_scalars = [], []
+            node = self.output_node(out, trailing, len(order) + len(bindings))
+            if node.kind == "mask":
+                node = node.extra
+            if node.kind != "vec":
+                raise Unsupported(f"output {out} is not a lane value ({node.kind})")
+            results.append((out, list(self.lets), node.text, list(self.used_inputs)))
+            all_scalars.update(self.used_scalars)
+        # argument list of an output: the declared inputs its DAG reads (declared order), then every
+        # scalar parameter read by ANY output of this entry (parameter order) -- the scalar part is
+        # the same for all outputs so that which parameter feeds which mask stays visible
+        final = []
+        for out, lets, text, used in results:
+            args = [i for i in self.inputs if i in used] + [p for p in self.scalar_params if p in all_scalars]
+            args = [a + "_v" if a in self.LEAN_RESERVED else a for a in args]
+            final.append((out, lets, text, args))
+        return final
+
+    def output_node(self, out, trailing, end_pos):
+        parts = out.split(".")
+        head = parts[0]
+        sel = parts[1:]
+        if head == "return":
+            toks = trailing
+            if not toks:
+                raise Unsupported("function has no trailing expression")
+            pos = end_pos
+            toks, sel = self.select(toks, sel)
+            return self.vexpr_all(toks, pos)
+        name, _, k = head.partition("#")
+        if name not in self.versions:
+            raise Unsupported(f"output variable {name} not bound in {self.fn_name}")
+        vs = self.versions[name]
+        v = vs[int(k)] if k else vs[-1]
+        if v[0] == "cond":
+            raise Unsupported(f"output {out}: re-assigned inside a nested block (control-flow dependent)")
+        if v[0] != "expr":
+            raise Unsupported(f"output {out} is a parameter")
+        toks, sel = self.select(v[1], sel)
+        return self.vexpr_all(toks, v[2])
+
+    def select(self, toks, sel):
+        """Apply explicit selectors: struct field / tuple index / then / else."""
+        while sel:
+            s, sel = sel[0], sel[1:]
+            toks = self.strip_unsafe(toks)
+            if s in ("then", "else"):
+                if not toks or toks[0][1] != "if":
+                    raise Unsupported(f"selector .{s} on a non-`if` expression")
+                blocks = self.top_blocks(toks)
+                if len(blocks) != 2:
+                    raise Unsupported("`if` without exactly then/else blocks")
+                toks = blocks[0] if s == "then" else blocks[1]
+            elif s.isdigit():
+                if toks[0][1] != "(":
+                    raise Unsupported("tuple selector on non-tuple")
+                items = self.split_commas(toks[1:-1])
+                toks = items[int(s)]
+            else:
+                # struct literal `Name { f: e, ... }`
+                if not (toks[0][0] == "id" and toks[1][1] == "{" and toks[-1][1] == "}"):
+                    raise Unsupported("field selector on non-struct-literal")
+                found = None
+                for item in self.split_commas(toks[2:-1]):
+                    if item and item[0][1] == s and len(item) > 1 and item[1][1] == ":":
+                        found = item[2:]
+                if found is None:
+                    raise Unsupported(f"struct field {s} not found")
+                toks = found
+        return toks, sel
+
+    @staticmethod
+    def strip_unsafe(toks):
+        while toks and toks[0][1] == "unsafe" and toks[1][1] == "{" and toks[-1][1] == "}":
+            toks = toks[2:-1]
+        return toks
+
+    @staticmethod
+    def split_commas(toks):
+        items, cur, depth = [], [], 0
+        for t in toks:
+            if t[1] in ("(", "{", "["):
+                depth += 1
+            elif t[1] in (")", "}", "]"):
+                depth -= 1
+            if t[1] == "," and depth == 0:
+                items.append(cur)
+                cur = []
+            else:
+                cur.append(t)
+        if cur:
+            items.append(cur)
+        return items
+
+    @staticmethod
+    def top_blocks(toks):
+        blocks, depth, start = [], 0, None
+        for j, t in enumerate(toks):
+            if t[1] == "{":
+                if depth == 0:
+                    start = j
+                depth += 1
+            elif t[1] == "}":
+                depth -= 1
+                if depth == 0:
+                    blocks.append(toks[start + 1:j])
+        return blocks
+
+    def vexpr_all(self, toks, pos):
+        p = self.P(self.strip_unsafe(toks))
+        node = self.vexpr(p, pos, {})
+        while p.at("as"):
+            p.eat()
+            p.eat()
+        if not p.done():
+            raise Unsupported(f"unexpected token {p.peek()[1]!r} after lane expression")
+        return node
+
+    LEAN_RESERVED = frozenset("""at from have show fun let in do then else if match with matches end open def theorem
+        instance where deriving structure class namespace section variable universe local private protected mutual by
+        calc for return try catch finally unless break continue mut Type Sort Prop using this obtain suffices assume
+        import export macro syntax notation infix infixl infixr prefix postfix abbrev example axiom opaque inductive
+        extends nomatch nofun termination_by decreasing_by""".split())
+
+    def fresh(self, name):
+        if name in self.LEAN_RESERVED:
+            name = name + "_v"
+        c = self.names.get(name, 0)
+        self.names[name] = c + 1
+        return name if c == 0 else f"{name}_{c + 1}"
+
+    def lookup(self, name, pos, local):
+        """Value of identifier `name` as seen by an expression at sequence position `pos`."""
+        if name in local:
+            return local[name]
+        if name in self.inputs:
+            if name not in self.used_inputs:
+                self.used_inputs.append(name)
+            return LNode("vec", name + "_v" if name in self.LEAN_RESERVED else name)
+        if name in self.scalar_params:
+            if name not in self.used_scalars:
+                self.used_scalars.append(name)
+            return LNode("byte", text=name)
+        if name in self.file_consts:
+            p = self.P(ltokenize(self.file_consts[name]))
+            v = self.bexpr(p, pos, local)
+            if not p.done():
+                raise Unsupported(f"const {name}: unsupported expression")
+            return v
+        vs = [v for v in self.versions.get(name, []) if v[2] < pos]
+        if not vs:
+            raise Unsupported(f"unknown identifier {name}")
+        v = vs[-1]
+        if v[0] == "param":
+            raise Unsupported(f"vector parameter {name} is not a declared input")
+        if v[0] == "cond" or any(w[0] == "cond" for w in self.versions.get(name, [])):
+            raise Unsupported(f"{name} is re-assigned inside a nested block (control-flow dependent DAG)")
+        key = (name, v[2])
+        if key in self.memo:
+            return self.memo[key]
+        node = self.vexpr_all(v[1], v[2])
+        if node.kind == "vec":
+            ln = self.fresh(name)
+            self.lets.append((ln, node.text))
+            node = LNode("vec", ln, const=node.const)   # a named `set1` constant stays a constant
+        self.memo[key] = node
+        return node
+
+    # byte (scalar) expressions: constants fold, parameters stay symbolic
+    def bexpr(self, p, pos, local):
+        v = self.bterm(p, pos, local)
+        while p.peek()[1] in ("+", "-"):
+            op = p.eat()[1]
+            w = self.bterm(p, pos, local)
+            if v.const is not None and w.const is not None:
+                v = LNode("byte", const=(v.const + w.const) if op == "+" else (v.const - w.const))
+            else:
+                v = LNode("byte", text=f"({self.btext(v)} {op} {self.btext(w)})")
+        return v
+
+    def bterm(self, p, pos, local):
+        k, t = p.peek()
+        if t == "-":
+            p.eat()
+            v = self.bterm(p, pos, local)
+            if v.const is None:
+                raise Unsupported("negation of a non-constant byte")
+            v = LNode("byte", const=-v.const)
+        elif t == "(":
+            p.eat()
+            v = self.bexpr(p, pos, local)
+            p.eat(")")
+        elif k == "num":
+            p.eat()
+            m = re.match(r"(0x[0-9a-fA-F_]+?|0b[01_]+?|[0-9][0-9_]*?)([iu](?:8|16|32|64|size))?$", t)
+            v = LNode("byte", const=int(m.group(1).replace("_", ""), 0))
+        elif k == "bchar":
+            p.eat()
+            v = LNode("byte", const=bchar_value(t))
+        elif k == "id":
+            p.eat()
+            v = self.lookup(t, pos, local)
+            if v.kind != "byte":
+                raise Unsupported(f"{t} used as a byte but is a {v.kind}")
+        else:
+            raise Unsupported(f"unexpected token {t!r} in byte expression")
+        while p.at("as"):
+            p.eat()
+            ty = p.eat()[1]
+            if ty not in ("i8", "u8"):
+                raise Unsupported(f"byte cast to {ty}")
+        return v
+
+    @staticmethod
+    def btext(v):
+        if v.const is not None:
+            if not -128 <= v.const <= 255:
+                raise Unsupported(f"byte constant {v.const} out of range")
+            return byte_lit(v.const)
+        return v.text
+
+    def vec(self, node, what):
+        if node.kind == "shift":
+            raise Unsupported("srli/slli_epi16 not immediately masked to a byte-wise meaning")
+        if node.kind != "vec":
+            raise Unsupported(f"{what}: expected a vector lane, got {node.kind}")
+        return node.text
+
+    def vexpr(self, p, pos, local):
+        k, t = p.peek()
+        if t == "(":
+            p.eat()
+            v = self.vexpr(p, pos, local)
+            p.eat(")")
+            return v
+        if t == "unsafe":
+            p.eat()
+            p.eat("{")
+            v = self.vexpr(p, pos, local)
+            p.eat("}")
+            return v
+        if t == "*":
+            p.eat()
+            return self.vexpr(p, pos, local)
+        if k != "id":
+            raise Unsupported(f"unexpected token {t!r} in lane expression")
+        if t in ("if", "match", "loop", "while", "for"):
+            raise Unsupported(f"`{t}` expression in the lane DAG (an `if` output can be selected with .then/.else)")
+        p.eat()
+        generic = None
+        if p.at("::") and p.peek(1)[1] == "<":
+            p.eat(); p.eat()
+            g = []
+            while not p.at(">"):
+                g.append(p.eat())
+            p.eat(">")
+            generic = g
+        if not p.at("("):
+            return self.lookup(t, pos, local)
+        # call
+        p.eat("(")
+        argtoks, cur, depth = [], [], 0
+        while True:
+            tk = p.eat()
+            if tk[0] == "eof":
+                raise Unsupported("unterminated call")
+            if tk[1] in ("(", "{", "["):
+                depth += 1
+            elif tk[1] in (")", "}", "]"):
+                if depth == 0:
+                    if cur:
+                        argtoks.append(cur)
+                    break
+                depth -= 1
+            if tk[1] == "," and depth == 0:
+                argtoks.append(cur)
+                cur = []
+            else:
+                cur.append(tk)
+        if generic is not None:
+            argtoks.append(generic)
+        return self.call(t, argtoks, pos, local)
+
+    def sub_v(self, toks, pos, local):
+        p = self.P(toks)
+        v = self.vexpr(p, pos, local)
+        if not p.done():
+            raise Unsupported(f"unexpected token {p.peek()[1]!r} in argument")
+        return v
+
+    def sub_b(self, toks, pos, local):
+        p = self.P(toks)
+        v = self.bexpr(p, pos, local)
+        if not p.done():
+            raise Unsupported(f"unexpected token {p.peek()[1]!r} in byte argument")
+        return v
+
+    def call(self, fn, args, pos, local):
+        m = re.match(r"_mm(?:256|512)?_(.*)$", fn)
+        if not m:
+            return self.inline_helper(fn, args, pos, local)
+        op = m.group(1)
+        op = re.sub(r"_si(128|256|512)$", "", op) if op in (
+            "or_si128", "or_si256", "and_si128", "and_si256", "xor_si128", "xor_si256", "andnot_si128",
+            "andnot_si256", "setzero_si128", "setzero_si256") else op
+        if op == "set1_epi8":
+            b = self.sub_b(args[0], pos, local)
+            return LNode("vec", self.btext(b), const=b.const)
+        if op == "setzero":
+            return LNode("vec", byte_lit(0), const=0)
+        if op == "movemask_epi8":
+            return LNode("mask", extra=LNode("vec", self.vec(self.sub_v(args[0], pos, local), fn)))
+        binops = {"cmpeq_epi8": "SV.Lane.cmpeq", "cmpgt_epi8": "SV.Lane.cmpgt", "andnot": "SV.Lane.andnot",
+                  "adds_epu8": "SV.Lane.addsu", "subs_epu8": "SV.Lane.subsu", "min_epu8": "SV.Lane.minu",
+                  "max_epu8": "SV.Lane.maxu"}
+        infix = {"or": "|||", "xor": "^^^", "add_epi8": "+", "sub_epi8": "-"}
+        if op in binops or op in infix:
+            a = self.vec(self.sub_v(args[0], pos, local), fn)
+            b = self.vec(self.sub_v(args[1], pos, local), fn)
+            if op in binops:
+                return LNode("vec", f"({binops[op]} {a} {b})")
+            return LNode("vec", f"({a} {infix[op]} {b})")
+        if op == "and":
+            x = self.sub_v(args[0], pos, local)
+            y = self.sub_v(args[1], pos, local)
+            for s, mk in ((x, y), (y, x)):
+                if s.kind == "shift":
+                    if mk.kind != "vec" or mk.const is None:
+                        raise Unsupported("srli/slli_epi16 masked by a non-constant")
+                    dirn, inner, n = s.extra
+                    mv = mk.const % 256
+                    if dirn == "r" and mv & ~(0xFF >> n) & 0xFF:
+                        raise Unsupported(f"srli_epi16 by {n} masked with {mv:#x}: keeps bits of the neighbouring byte")
+                    if dirn == "l" and mv & ((1 << n) - 1):
+                        raise Unsupported(f"slli_epi16 by {n} masked with {mv:#x}: keeps bits of the neighbouring byte")
+                    f = "SV.Lane.srlMasked" if dirn == "r" else "SV.Lane.sllMasked"
+                    return LNode("vec", f"({f} {inner} {n} {byte_lit(mv)})")
+            return LNode("vec", f"({self.vec(x, fn)} &&& {self.vec(y, fn)})")
+        if op in ("srli_epi16", "slli_epi16"):
+            inner = self.vec(self.sub_v(args[0], pos, local), fn)
+            n = self.sub_b(args[1], pos, local)
+            if n.const is None or not 0 <= n.const <= 7:
+                raise Unsupported(f"{op} by a non-constant or >7 amount")
+            return LNode("shift", extra=("r" if op[1] == "r" else "l", inner, n.const))
+        if CROSS_LANE.search(op):
+            raise Unsupported(f"cross-lane / memory intrinsic {fn} inside the translated DAG "
+                              f"(declare the binding as an input if it is one)")
+        raise Unsupported(f"intrinsic {fn} not in the lane subset")
+
+    def inline_helper(self, fn, args, pos, local):
+        try:
+            params, body = LaneTranslator(self.file_text, fn, [], self.file_consts).load_fn(fn)
+        except Unsupported:
+            raise Unsupported(f"call to {fn}: not an intrinsic and not a fn of this file")
+        params = [(n, k) for n, k in params]
+        if len(params) != len(args):
+            raise Unsupported(f"arity of helper {fn}")
+        new_local = {}
+        for (pn, pk), a in zip(params, args):
+            if pk == "vec":
+                new_local[pn] = LNode("vec", self.vec(self.sub_v(a, pos, local), fn))
+            elif pk == "byte":
+                new_local[pn] = self.sub_b(a, pos, local)
+            else:
+                raise Unsupported(f"helper {fn}: parameter {pn} of unsupported type")
+        # helper body: its own `let` bindings (simple, in order) then trailing expression
+        sub = LaneTranslator(self.file_text, fn, [], self.file_consts)
+        sub.scalar_params, sub.used_scalars, sub.used_inputs = [], [], []
+        sub.lets, sub.memo, sub.names = self.lets, {}, self.names
+        sub.inputs = []
+        binds = sub.scan_bindings(body)
+        sub.versions = {}
+        for idx, (name, e, _d, _l) in enumerate(binds):
+            sub.versions.setdefault(name, []).append(("expr", e, idx))
+        trailing, _ = sub.trailing_expr(body)
+        if not trailing:
+            raise Unsupported(f"helper {fn} has no trailing expression")
+        # helper-local bindings are inlined as expressions (no let names leak): evaluate eagerly
+        loc = dict(new_local)
+        for idx, (name, e, _d, is_let) in enumerate(binds):
+            if not is_let:
+                raise Unsupported(f"helper {fn}: re-assignment of {name}")
+            loc[name] = sub.sub_v(sub.strip_unsafe(e), idx, loc)
+        node = sub.sub_v(sub.strip_unsafe(trailing), len(binds), loc)
+        for s in sub.used_scalars:
+            if s not in self.used_scalars:
+                self.used_scalars.append(s)
+        return node
+
+
+def translate_lanes(file_text, lean, fn, spec):
+    """Return (lean_text, names) for one EXTRACT "lanes" entry."""
+    inputs = spec.get("inputs", [])
+    outputs = spec.get("outputs", ["return"])
+    lt = LaneTranslator(file_text, fn, inputs)
+    results = lt.translate(outputs)
+    out = []
+    for name, srcs in lt.input_src.items():
+        lits = ", ".join('"' + s.replace("\\", "\\\\").replace('"', '\\"') + '"' for s in srcs)
+        out.append(f"/-- source text of the binding(s) of lane input `{name}` of `{fn}` (not translated: "
+                   f"memory / cross-lane; modelled by hand) -/\ndef {lean}_input_{name}_src : List String := [{lits}]\n")
+    for o, lets, text, args in results:
+        sig = " ".join(f"({a} : BitVec 8)" for a in args)
+        call = " ".join(args)
+        oname = "ret" if o == "return" else re.sub(r"[^A-Za-z0-9_]", "_", o[7:] if o.startswith("return.") else o)
+        body = "".join(f"  let {n} := {e}\n" for n, e in lets) + f"  {text}\n"
+        out.append(f"/-- one lane of output `{o}` of `{fn}` -/\ndef {lean}_{oname}_lane {sig} : BitVec 8 :=\n{body}")
+        out.append(f"/-- the movemask bit of that lane -/\ndef {lean}_{oname} {sig} : Bool := ({lean}_{oname}_lane {call}).msb\n")
+    return "\n".join(out)
